@@ -44,6 +44,14 @@ def lib():
 
         sched.install()
 
+        class Crash(w.Worker):
+            """An observer whose handler fails on its first message (its thread dies, as a real one would)."""
+
+            def _process_message(self, message):
+                raise RuntimeError("observer failed (injected fault)")
+
+        _L["Crash"] = Crash
+
         class Rec(w.Worker):
             """Recording observer."""
 
@@ -161,6 +169,9 @@ def make_factory(cfg):
             if o == "rec":
                 x = L["Rec"]()
                 ctx.recs.append(x)
+            elif o == "crash":
+                x = L["Crash"]()
+                ctx.crashers = getattr(ctx, "crashers", []) + [x]
             elif o == "print":
                 x = w.PrintWorker("{id} {start} {end} {duration}", "%S")
                 ctx.printers.append(x)
@@ -177,7 +188,27 @@ def make_factory(cfg):
                 raise ValueError(o)
             obs.append(x)
         ctx.obs = obs
-        ctx.tw = w.TokenizerWorker(reader, obs, **dict(SPLIT_VARIANTS[cfg["split"]], **cfg.get("split_extra", {})))
+        logger = None
+        if cfg.get("logger"):
+            import logging
+
+            logger = logging.getLogger("verif-%d" % _seq[0])
+            logger.handlers = []
+            logger.propagate = False
+            logger.setLevel(logging.INFO)
+            ctx.loglines = []
+
+            class _H(logging.Handler):
+                def emit(self, record):
+                    ctx.loglines.append(record.getMessage())
+
+            logger.addHandler(_H())
+        ctx.tw = w.TokenizerWorker(reader, obs, logger=logger, **dict(SPLIT_VARIANTS[cfg["split"]], **cfg.get("split_extra", {})))
+        ctx.second = None
+        if cfg.get("second"):
+            # a second, independent pipeline in the same process (own reader, own saver, own observers)
+            c2 = dict(cfg, pattern=cfg["second"], second=None, kind="run")
+            ctx.second = make_factory(c2)()[1]
 
         def main():
             old = sys.stdout
@@ -185,7 +216,17 @@ def make_factory(cfg):
             try:
                 if ctx.saver is not None:
                     ctx.saver.start()
+                if ctx.second is not None:
+                    if ctx.second.saver is not None:
+                        ctx.second.saver.start()
+                    ctx.second.tw.start_all()
                 ctx.tw.start_all()
+                if ctx.second is not None:
+                    ctx.second.tw.join()
+                    for o in ctx.second.obs:
+                        o.join()
+                    if ctx.second.saver is not None:
+                        ctx.second.saver.join()
                 if kind == "stop":
                     ctx.tw.stop_all()
                     if ctx.saver is not None:
@@ -275,6 +316,12 @@ def make_cli(ctx, cfg, data, sw, ch):
 
 
 def cleanup(ctx):
+    if getattr(ctx, "second", None) is not None:
+        cleanup(ctx.second)
+    _cleanup1(ctx)
+
+
+def _cleanup1(ctx):
     # close whatever an aborted execution left open, then drop the files
     # (their __del__ drains the inbox and flushes: leave it nothing to do)
     for x in [ctx.saver] + ctx.joiners:
@@ -319,8 +366,15 @@ def check(ex, ctx):
         blocked = [(t.name, t.pending and t.pending[0]) for t in ex.th if t.started and not t.finished]
         return "%s: threads never end: %s" % (ex.outcome, blocked)
     for t in ex.th:
-        if t.crash is not None:
+        if t.crash is not None and not (t.name == "Crash" and "injected fault" in str(t.crash)):
             return "thread %s died with %r" % (t.name, t.crash)
+    if getattr(ctx, "second", None) is not None:
+        class _Ex:  # the second pipeline ran in the same execution
+            outcome = ex.outcome
+            th = []
+        m2 = check(_Ex, ctx.second)
+        if m2:
+            return "second pipeline (pattern %s) in the same process: %s" % (cfg["second"], m2)
     if cfg["kind"] == "cli" and ctx.status != 0:
         return "cmdline.main returned %r" % (ctx.status,)
     if cfg["kind"] in ("stop", "cli"):
@@ -571,11 +625,17 @@ def plan(prop, tier):
         for p in (["AAA", "AAAA"] if quick else ["AAA", "AAAA", "AAAAA", "AAaAAA"]):
             for o in (["rec"], ["rec", "rec"]):
                 tasks.append((dict(kind="run", pattern=p, observers=o, split="s2"), 1 if len(o) > 1 else K, 0, "sync", None, None))
+        # a logger on the tokenizer worker, streams with and without detections
+        for p in ("", "a", "aa", "AaA"):
+            tasks.append((dict(kind="run", pattern=p, observers=["rec", "print"], split="s0", logger=True), 1, 0, "sync", None, None))
+        # two independent pipelines in one process
+        tasks.append((dict(kind="run", pattern="AaA", second="AAAA", observers=["rec"], split="s0"), 0, 0, "sync", None, None))
         # channel selection given to the worker (long name and alias) on stereo audio whose channels differ
         for extra in ({"use_channel": 0}, {"uc": 1}, {"uc": "mix"}, {"use_channel": -1, "eth": 60}):
             tasks.append((dict(kind="run", pattern="LRaA", observers=["rec"], split="s2", ch=2, split_extra=extra), 1, 0, "sync", None, None))
         for p, o, sp in (("AaA", ["rec", "print"], "s0"), ("AAAA", ["rec", "rec"], "s2"), ("AAaA", ["rec", "join", "regsave"], "s1")):
             tasks.append((dict(kind="run", pattern=p, observers=o, split=sp), 1, 0, "race", 2 if quick else 3, None))
+        tasks.append((dict(kind="run", pattern="AaA", second="AAAA", observers=["rec", "print"], split="s0"), 0, 0, "race", 2, None))
         # directed starvation schedules on a long stream (300 detections): capacity effects
         tasks.append((dict(kind="run", pattern="A" * 300, observers=["rec", "print"], split="s2"), 10 ** 6, 0, "directed", None, None))
         tasks.append((dict(kind="run", pattern="A" * 150, observers=["rec", "rec", "print"], split="s2"), 10 ** 6, 0, "directed", None, None))
@@ -617,6 +677,12 @@ def plan(prop, tier):
         for p in (["AaA"] if quick else ["A", "AaA", "AAAA"]):
             tasks.append((dict(kind="cli", pattern=p, observers=[], split="s0", argv=["-O", "@stream.raw"]), 0, 1, "sync", None, None))
         tasks.append((dict(kind="stop", pattern="A" * 300, observers=["rec"], split="s2", saver=True, cache=0.5), 10 ** 6, 0, "directed", None, None))
+        # an observer dies on its first message; the stop must still end everything (also with > 1000 later detections)
+        for p in ("AaA", "AAAA"):
+            tasks.append((dict(kind="stop", pattern=p, observers=["crash", "rec"], split="s2"), K, 0, "sync", None, None))
+        tasks.append((dict(kind="stop", pattern="A" * 1100, observers=["crash", "rec"], split="s2"), 0, 0, "directed", None, None))
+        # joins that give up (a timeout on join) must not be taken for termination
+        tasks.append((dict(kind="stop", pattern="AaA", observers=["rec"], split="s0", saver=True, cache=0.1), 2, 0, "sync", None, None))
         tasks.append((dict(kind="stop", pattern="AAaA", observers=["rec", "print"], split="s0", saver=True, cache=0.1), 1, 0, "race", 2 if quick else 3, None))
         tasks.append((dict(kind="cli", pattern="AaA", observers=[], split="s0", argv=["-O", "@stream.wav"]), 0, 1, "race", 2, None))
         tasks.append((dict(kind="cli", pattern="AAAA", observers=[], split="s0", argv=["-q", "-O", "@stream.wav", "-j", "0.1", "-o", "@ev_{id}.wav"]), 0, 1, "race", 2, None))
@@ -650,7 +716,11 @@ def plan(prop, tier):
                               1, 0, "sync", None, None))
         for p, o, c in (("AAAA", [], 0.1), ("AAAAA", [], 0.15), ("AaAA", ["join", "regsave"], 0.1), ("AAAA", ["join"], 1000)):
             tasks.append((dict(base, pattern=p, observers=o, saver=True, cache=c), 1, 0, "race", 2 if quick else 3, None))
+        tasks.append((dict(base, pattern="Aa", second="AAA", observers=[], saver=True, cache=1000), 0, 0, "race", 2, None))
         tasks.append((dict(base, pattern="Aa" * 150, observers=["join"], split="s2", saver=True, cache=0.5), 10 ** 6, 0, "directed", None, None))
+        # two savers alive at once (two independent pipelines): nothing of one may reach the other's file
+        for c in (0.1, 1000):
+            tasks.append((dict(base, pattern="Aa", second="AAA", observers=[], saver=True, cache=c), 0, 0, "sync", None, None))
         # realistic rate: 1600-sample windows, > 64 KiB of joined audio, a cache smaller than the stream
         tasks.append((dict(kind="run", pattern="AAAAAAAAAAAAaaAAAAAAAAAAAAaaAAAAAAAAAAAAaaAAAAAAAA", observers=["join", "regsave"], split="s1",
                            saver=True, cache=0.5, sr=16000, silence=0.1), 10 ** 6, 0, "directed", None, None))
